@@ -761,18 +761,6 @@ func sortedKeys[V any](m map[string]V) []string {
 	return ks
 }
 
-// isCallTo reports whether in is a (non-go, non-defer) call of the function with this full name.
-func isCallTo(in ssa.Instruction, name string) (*ssa.Call, bool) {
-	c, ok := in.(*ssa.Call)
-	if !ok {
-		return nil, false
-	}
-	if f := calleeOf(&c.Call); f != nil && fullName(f) == name {
-		return c, true
-	}
-	return nil, false
-}
-
 // calleeName returns the full name of the static callee of a call instruction ("" if dynamic).
 func calleeName(in ssa.CallInstruction) string {
 	if f := calleeOf(in.Common()); f != nil {
@@ -790,10 +778,6 @@ func calleeName(in ssa.CallInstruction) string {
 // sk is the canonical (context-independent, length-bounded) key of a value; every
 // operand inside a relation and every hand-composed key uses it.
 func sk(v ssa.Value) string { return shortKey(exprKey(v)) }
-
-func kLen(v ssa.Value) string { return shortKey("len(" + sk(v) + ")") }
-
-func kExt(v ssa.Value, i int) string { return shortKey(sk(v) + "#" + itoa(i)) }
 
 // RelsOnEdge returns the relations that hold when control passes from pred to succ.
 func (p *Prog) RelsOnEdge(rm map[*ssa.BasicBlock]relSet, pred, succ *ssa.BasicBlock) relSet {
